@@ -8,13 +8,20 @@
    storage, the WAL and a log of storage puts (both tagged with the writer, so that
    "a refused creation leaves nothing behind" can be stated).
 
-   Each writer runs the program of persist_create_*; the steps are the code's
-   critical sections, in order:
+   A writer is a creator or a deleter.  A creator runs the program of persist_create_*;
+   the steps are the code's critical sections, in order:
      Reserve  TenantManager::reserve   : quota check AND usage += 1 under one write lock;
                                          refused => the call returns QuotaExceeded
      Log      wal.lock().append        : under the WAL mutex
      Put      put_guard { get; put }   : was the id already stored?  then store it
      Settle   overwrite => decrement_usage (give the reservation back); return Ok
+   A deleter runs persist_delete_* (hook points pm.delete_*.{after_quota,after_wal,after_storage}):
+     Check    tenants.get_tenant       : the tenant is known (always, here); no shared effect
+     Log      wal.lock().append
+     Remove   put_guard { get; delete; if it was there: decrement_usage }
+     Return   Ok
+   The program counter type is shared: for a deleter [Reserved] means "past Check" and
+   [Stored e] means "past Remove; the entity was there iff e".
    A schedule is a list of writer indices; each occurrence runs that writer's next step. *)
 From Coq Require Import List NArith Bool.
 From Verif Require Import CheckLib.
@@ -30,7 +37,9 @@ Inductive pc :=
 | Stored (existed : bool)
 | Done (r : result).
 
-Record thread := { target : N; at_pc : pc }.
+Inductive wkind := Creator | Deleter.
+
+Record thread := { kind : wkind; target : N; at_pc : pc }.
 
 Record state := {
   quota : option N;            (* ResourceQuotas.max_nodes / max_edges *)
@@ -38,6 +47,7 @@ Record state := {
   stored : list N;             (* ids present in storage for this tenant, duplicate-free *)
   wal : list (nat * N);        (* (writer, id) appended to the WAL *)
   puts : list (nat * N);       (* (writer, id) written to storage *)
+  dels : list (nat * N);       (* (writer, id) deleted from storage (whether or not it was there) *)
   threads : list thread
 }.
 
@@ -57,41 +67,71 @@ Definition over_quota (q : option N) (u : N) : bool :=
   end.
 
 Definition with_thread (s : state) (i : nat) (t : thread) (p : pc) : list thread :=
-  set_nth (threads s) i {| target := target t; at_pc := p |}.
+  set_nth (threads s) i {| kind := kind t; target := target t; at_pc := p |}.
+
+Definition remove_id (x : N) (l : list N) : list N := filter (fun y => negb (N.eqb x y)) l.
+
+(* one step of a creator *)
+Definition step_create (s : state) (i : nat) (t : thread) : state :=
+  match at_pc t with
+  | Start =>
+      if over_quota (quota s) (usage s)
+      then {| quota := quota s; usage := usage s; stored := stored s; wal := wal s; puts := puts s; dels := dels s;
+              threads := with_thread s i t (Done Refused) |}
+      else {| quota := quota s; usage := usage s + 1; stored := stored s; wal := wal s; puts := puts s; dels := dels s;
+              threads := with_thread s i t Reserved |}
+  | Reserved =>
+      {| quota := quota s; usage := usage s; stored := stored s; wal := wal s ++ [(i, target t)]; puts := puts s;
+         dels := dels s; threads := with_thread s i t Logged |}
+  | Logged =>
+      let e := mem (target t) (stored s) in
+      {| quota := quota s; usage := usage s;
+         stored := if e then stored s else stored s ++ [target t];
+         wal := wal s; puts := puts s ++ [(i, target t)]; dels := dels s;
+         threads := with_thread s i t (Stored e) |}
+  | Stored e =>
+      {| quota := quota s;
+         usage := if e then usage s - 1 else usage s;     (* saturating_sub *)
+         stored := stored s; wal := wal s; puts := puts s; dels := dels s;
+         threads := with_thread s i t (Done Accepted) |}
+  | Done _ => s
+  end.
+
+(* one step of a deleter *)
+Definition step_delete (s : state) (i : nat) (t : thread) : state :=
+  match at_pc t with
+  | Start =>
+      {| quota := quota s; usage := usage s; stored := stored s; wal := wal s; puts := puts s; dels := dels s;
+         threads := with_thread s i t Reserved |}
+  | Reserved =>
+      {| quota := quota s; usage := usage s; stored := stored s; wal := wal s ++ [(i, target t)]; puts := puts s;
+         dels := dels s; threads := with_thread s i t Logged |}
+  | Logged =>
+      let e := mem (target t) (stored s) in
+      {| quota := quota s;
+         usage := if e then usage s - 1 else usage s;     (* decrement only if it was stored *)
+         stored := if e then remove_id (target t) (stored s) else stored s;
+         wal := wal s; puts := puts s; dels := dels s ++ [(i, target t)];
+         threads := with_thread s i t (Stored e) |}
+  | Stored _ =>
+      {| quota := quota s; usage := usage s; stored := stored s; wal := wal s; puts := puts s; dels := dels s;
+         threads := with_thread s i t (Done Accepted) |}
+  | Done _ => s
+  end.
 
 (* one step of writer i *)
 Definition step (s : state) (i : nat) : state :=
   match nth_error (threads s) i with
   | None => s
-  | Some t =>
-      match at_pc t with
-      | Start =>
-          if over_quota (quota s) (usage s)
-          then {| quota := quota s; usage := usage s; stored := stored s; wal := wal s; puts := puts s;
-                  threads := with_thread s i t (Done Refused) |}
-          else {| quota := quota s; usage := usage s + 1; stored := stored s; wal := wal s; puts := puts s;
-                  threads := with_thread s i t Reserved |}
-      | Reserved =>
-          {| quota := quota s; usage := usage s; stored := stored s; wal := wal s ++ [(i, target t)]; puts := puts s;
-             threads := with_thread s i t Logged |}
-      | Logged =>
-          let e := mem (target t) (stored s) in
-          {| quota := quota s; usage := usage s;
-             stored := if e then stored s else stored s ++ [target t];
-             wal := wal s; puts := puts s ++ [(i, target t)];
-             threads := with_thread s i t (Stored e) |}
-      | Stored e =>
-          {| quota := quota s;
-             usage := if e then usage s - 1 else usage s;     (* saturating_sub *)
-             stored := stored s; wal := wal s; puts := puts s;
-             threads := with_thread s i t (Done Accepted) |}
-      | Done _ => s
-      end
+  | Some t => match kind t with
+              | Creator => step_create s i t
+              | Deleter => step_delete s i t
+              end
   end.
 
-Definition init (q : option N) (targets : list N) : state :=
-  {| quota := q; usage := 0; stored := []; wal := []; puts := [];
-     threads := map (fun x => {| target := x; at_pc := Start |}) targets |}.
+Definition init (q : option N) (writers : list (wkind * N)) : state :=
+  {| quota := q; usage := 0; stored := []; wal := []; puts := []; dels := [];
+     threads := map (fun x => {| kind := fst x; target := snd x; at_pc := Start |}) writers |}.
 
 Definition run (s : state) (sched : list nat) : state := fold_left step sched s.
 
@@ -103,17 +143,17 @@ Definition nlen {A} (l : list A) : N := N.of_nat (length l).
 (* PersistenceManager::recover : usage is SET to the number of entities found in storage *)
 Definition recover (s : state) : state :=
   {| quota := quota s; usage := nlen (stored s); stored := stored s; wal := wal s; puts := puts s;
-     threads := threads s |}.
+     dels := dels s; threads := threads s |}.
 
 (* the ORIGINAL recover added the count on every call (kept for the refutation witness) *)
 Definition recover_original (s : state) : state :=
   {| quota := quota s; usage := usage s + nlen (stored s); stored := stored s; wal := wal s; puts := puts s;
-     threads := threads s |}.
+     dels := dels s; threads := threads s |}.
 
 Definition result_of (t : thread) : option result := match at_pc t with Done r => Some r | _ => None end.
 
 (* ---------- correspondence ----------
-   A case: the quota, the id each writer creates, the schedule actually executed with
+   A case: the quota, what each writer does (create / delete, and the id), the schedule actually executed with
    (get_usage, number of scanned entities) observed after every step, the result of each
    call, the ids scanned at the end, and the usage at the end / after one / after two
    recoveries on the same manager. *)
@@ -134,7 +174,7 @@ Fixpoint trace_ok (s : state) (l : list (N * (N * N))) : bool * state :=
       if N.eqb (usage s') u && N.eqb (nlen (stored s')) c then trace_ok s' r else (false, s')
   end.
 
-Definition case := (option N * list N * list (N * (N * N)) * list (option result) * list N * (N * N * N))%type.
+Definition case := (option N * list (wkind * N) * list (N * (N * N)) * list (option result) * list N * (N * N * N))%type.
 
 Definition check_case (c : case) : bool :=
   let '(q, targets, sched, results, scanned, (u0, u1, u2)) := c in
